@@ -246,6 +246,44 @@ def classify_exc(e):
     return 'Other:' + type(e).__name__
 
 
+SCRIBBLE = 'XSCRIBBLE_51c7'
+
+
+def _scribble_value(v):
+    if isinstance(v, list):
+        v.append(SCRIBBLE)
+    elif isinstance(v, dict):
+        v[SCRIBBLE] = SCRIBBLE
+
+
+def scribble(o):
+    """what a receiver may do with a message it deserialised: edit its containers in place (a middleware appending an
+    argument, a handler annotating error data).  Done AFTER the message was observed; messages deserialised later in this
+    process must not show it (every message owns its containers - no shared default objects)"""
+    try:
+        if isinstance(o, pjrpc.Request):
+            _scribble_value(o.params)
+        elif isinstance(o, pjrpc.Response):
+            if o.is_success:
+                _scribble_value(o.result)
+            else:
+                scribble(o.error)
+        elif isinstance(o, exceptions.JsonRpcError):
+            if o.data is not UNSET:
+                _scribble_value(o.data)
+        elif isinstance(o, pjrpc.BatchRequest):
+            for r in o:
+                scribble(r)
+        elif isinstance(o, pjrpc.BatchResponse):
+            if o.is_error:
+                scribble(o.error)
+            else:
+                for r in o:
+                    scribble(r)
+    except Exception:       # observing is over; a message that cannot be edited is not this driver's subject
+        pass
+
+
 def run(scn):
     mode, k = scn['kind'].split('_', 1)
     c_doc, a_doc, a_msg, build, parse = KINDS[k]
@@ -276,6 +314,7 @@ def run(scn):
         ev.append({'ev': 'Reser', 'wire': a_doc(json.loads(json.dumps(obj2.to_json(), cls=pjrpc.JSONEncoder)))})
     except Exception as e:
         ev.append({'ev': 'ReserFail', 'exc': type(e).__name__})
+    scribble(obj2)
     return {'scn': scn, 'ev': ev}
 
 
